@@ -231,6 +231,9 @@ def world_wide():
     hdr["N2"] = {"h": 2, "prev": "A1", "vs": "G", "nvs": "G", "pcpR": 1, "pcpPkh": "G", "pcp": {"A1": ok(1, 2, 3)}, "data": "N2"}   # commit proof of another round
     hdr["M2"] = {"h": 2, "prev": "A1", "vs": "G", "nvs": "G", "pcpR": 0, "pcpPkh": "G", "pcp": {"A1": ok(1, 2, 3), "nil": ok(4)}, "data": "M2"}
     hdr["K2"] = {"h": 2, "prev": "A1", "vs": "G", "nvs": "G", "pcpR": 0, "pcpPkh": "G", "pcp": {"A1": S([E(1), E(2), E(3), E(-1)])}, "data": "K2"}
+    # headers of the initial height that carry a previous-commit proof although nothing precedes them
+    hdr["P1"] = {"h": 1, "prev": "gen", "vs": "G", "nvs": "G", "pcpR": 0, "pcpPkh": "none", "pcp": {"X": ok(1, 2)}, "data": "P1"}
+    hdr["Q1"] = {"h": 1, "prev": "gen", "vs": "G", "nvs": "G", "pcpR": 0, "pcpPkh": "G", "pcp": {"nil": ok(1, 2, 3)}, "data": "Q1"}
     byh = {0: "Z0", 1: "A1", 2: "A2", 3: "A3"}
     V = []
     for kind in ("prevote", "precommit"):
@@ -246,7 +249,7 @@ def world_wide():
         V.append(vote(kind, 1, 0, {}))
     w["votes"] = S(V)
     P = []
-    for l in ("Z0", "A1", "B1", "A2", "N2", "M2", "K2", "A3"):
+    for l in ("Z0", "A1", "B1", "A2", "N2", "M2", "K2", "A3", "P1", "Q1"):
         for r in (0, 1, 2, 3):
             P.append(ph(l, r, 1))
         P.append(ph(l, 0, 5))
